@@ -229,6 +229,11 @@ func generate(r *simrt.Rand, pf *Profile) (Cfg, *Program) {
 				op.A = 1
 			case opAdvance:
 				op.A = 1 + r.Intn(4)
+			case opLongIdle:
+				ops = append(ops, Op{K: opSettle, A: 1})
+				op = Op{K: opAdvance, A: 120 + r.Intn(60)}
+				ops = append(ops, op)
+				op = Op{K: opSettle, A: 3}
 			}
 			ops = append(ops, op)
 		}
@@ -666,6 +671,7 @@ func init() {
 // pseudo op kinds resolved by the generator
 const (
 	opWUFw            = opWUF
+	opLongIdle        = opAdvance + 100 // resolved to Settle + a long Advance
 	opBatchPendingAny = opBatchPending
 )
 
